@@ -139,8 +139,15 @@ def load(spec, data, tmpdir, live_object=None):
         with open(path, "wb") as f:
             f.write(data)
         if spec["api"] == "generic":
-            with contextlib.redirect_stdout(io.StringIO()):
-                return call(partitura.load_performance, path, **kw)
+            try:
+                with contextlib.redirect_stdout(io.StringIO()):
+                    return call(partitura.load_performance, path, **kw)
+            except SutRaised as e:
+                if "NotSupportedFormatError" not in e.kind:
+                    raise
+                # load_performance hides the MIDI loader's exception: obtain it for the report
+                call(load_performance_midi, path, **kw)
+                raise
         return call(load_performance_midi, path, **kw)
     if live_object is not None:
         return call(load_performance_midi, live_object, **kw)
@@ -282,6 +289,15 @@ def _meta_dicts(q, track_of_sel):
 
 def oracle_roundtrip(spec):
     o = Outcome()
+    try:
+        return _oracle_roundtrip(spec, o)
+    except SutRaised as e:  # keep the classes recorded so far; the exception is the discrepancy
+        o.add(e.kind, text=e.text)
+        o.cls("aborted-by-sut-exception")
+        return o
+
+
+def _oracle_roundtrip(spec, o):
     ppq, mpq = spec["ppq"], spec["mpq"]
     kind = spec["kind"]
     merged = spec["merge_save"] or spec["merge_load"]
@@ -531,6 +547,15 @@ def build_midifile(spec):
 
 def oracle_midifile(spec):
     o = Outcome()
+    try:
+        return _oracle_midifile(spec, o)
+    except SutRaised as e:
+        o.add(e.kind, text=e.text)
+        o.cls("aborted-by-sut-exception")
+        return o
+
+
+def _oracle_midifile(spec, o):
     mf = build_midifile(spec)
     buf = io.BytesIO()
     mf.save(file=buf)
@@ -590,8 +615,15 @@ def known_track_set_order(spec, d):
 
 
 def known_tempo_track_order(spec, d):
-    det = d["detail"]
-    return d.kind == "import:seconds-wrong" and not spec["merge_load"] and det.get("tempo_track_order_sorted") is False
+    if spec["merge_load"] or _spec_tempo_sorted(spec):
+        return False
+    if d.kind == "import:seconds-wrong":
+        return d["detail"].get("tempo_track_order_sorted") is False
+    # the wrongly integrated times can become negative or decrease, which PerformedNote then rejects
+    return d.kind in (
+        "sut-raised:ValueError@performance.py:_validate_note_on",
+        "sut-raised:ValueError@performance.py:_validate_note_off",
+    )
 
 
 def known_touching_unsorted(spec, d):
@@ -606,6 +638,42 @@ def known_empty_part(spec, d):
     )
 
 
+def _spec_notes_controls(spec):
+    """(pitch, track, channel) of every note and the control numbers, for either kind of spec."""
+    notes, controls = [], []
+    if "parts" in spec:
+        for i, q in enumerate(spec["parts"]):
+            notes += [(n["midi_pitch"], (i, n["track"]), n["channel"]) for n in q["notes"]]
+            controls += [c["number"] for c in q["controls"]]
+    else:
+        for i, msgs in enumerate(spec["tracks"]):
+            notes += [(d["note"], i, d["ch"]) for d in msgs if d["m"] == "note_on" and d["vel"] > 0]
+            controls += [d["control"] for d in msgs if d["m"] == "control_change"]
+    return notes, controls
+
+
+def known_pedal_same_pitch(spec, d):
+    """PerformedPart() raises when a sustain-pedal control exists and a pitch is struck again (other channel,
+    other track, equal onset) before the release of its previous note: the re-strike clipping pushes sound_off
+    below note_off and the validation of PerformedNote rejects it."""
+    if not d.kind.startswith("sut-raised:ValueError@performance.py:_validate_sound_off"):
+        return False
+    notes, controls = _spec_notes_controls(spec)
+    pitches = [n[0] for n in notes]
+    return 64 in controls and len(set(pitches)) < len(pitches)
+
+
+def _spec_tempo_sorted(spec):
+    ticks = []
+    for msgs in spec.get("tracks", []):
+        t = 0
+        for d in msgs:
+            t += d["dt"]
+            if d["m"] == "set_tempo":
+                ticks.append(t)
+    return ticks == sorted(ticks)
+
+
 SUBCHECKS = [
     SubCheck(
         "roundtrip",
@@ -618,6 +686,7 @@ SUBCHECKS = [
             "loaded-tracks-renumbered-in-set-order": known_track_set_order,
             "touching-notes-unsorted-list": known_touching_unsorted,
             "empty-part-indexerror": known_empty_part,
+            "pedal-same-pitch-other-channel-valueerror": known_pedal_same_pitch,
         },
         floors={
             "kind:list": 0.08,
@@ -640,6 +709,7 @@ SUBCHECKS = [
         known={
             "tempo-changes-in-track-order": known_tempo_track_order,
             "loaded-tracks-renumbered-in-set-order": known_track_set_order,
+            "pedal-same-pitch-other-channel-valueerror": known_pedal_same_pitch,
         },
         floors={
             "tempo-change-after-tick-0": 0.3,
